@@ -27,6 +27,7 @@ import (
 	"os"
 	"path/filepath"
 	"sort"
+	"strings"
 	"time"
 
 	"github.com/vechain/thor/v2/block"
@@ -96,7 +97,28 @@ type scenario struct {
 	txs      []*tx.Transaction
 	paramKey []thor.Bytes32
 	accts    []thor.Address
-	marks    []uint32 // heights at which a storage trie is written (prune boundaries are placed on them)
+	marks    []uint32       // heights at which a storage trie is written (prune boundaries are placed on them)
+	big      thor.Address   // a contract with bigSlots storage slots written at creation and left alone for long
+	bigKeys  []thor.Bytes32 // the slots read back
+}
+
+const bigSlots = 200
+
+// init code: for i in 0..199 { sstore(i, i+1) }; return the 6-byte runtime  NUMBER PUSH2 0x0100 SSTORE STOP
+// (every later call of the contract overwrites slot 0x100 with the block number and leaves the 200 slots alone)
+var bigInit = []byte{
+	0x60, 0x00, // PUSH1 0                 i
+	0x5b,                   // JUMPDEST (pc 2)
+	0x80, 0x60, 0x01, 0x01, // DUP1 PUSH1 1 ADD        i, i+1
+	0x81,             // DUP2                    i, i+1, i
+	0x55,             // SSTORE                  storage[i] = i+1
+	0x60, 0x01, 0x01, // PUSH1 1 ADD       i+1
+	0x80, 0x60, bigSlots, 0x11, // DUP1 PUSH1 200 GT      200 > i ?
+	0x60, 0x02, 0x57, // PUSH1 2 JUMPI
+	0x60, 0x06, 0x60, 0x20, 0x60, 0x00, 0x39, // PUSH1 6 PUSH1 32 PUSH1 0 CODECOPY  (runtime at offset 32)
+	0x60, 0x06, 0x60, 0x00, 0xf3, // PUSH1 6 PUSH1 0 RETURN
+	0x00,                               // pad to offset 32
+	0x43, 0x61, 0x01, 0x00, 0x55, 0x00, // runtime
 }
 
 // buildChain mints the chain on the simulator's omniscient stack.
@@ -129,6 +151,12 @@ func buildChain(seed int64, n int) *scenario {
 	// heights at which a Params slot is written: early, a long gap, then again (storage trie untouched for long)
 	// (multiples of 4, so that they can be prune boundaries under every partition factor used here)
 	paramAt := map[int][]int{4: {0}, 8: {1}, (n/2)/4*4 + 4: {0}, (n - 8) / 4 * 4: {1}}
+	// the big contract: created at height 2, called (slot 0x100 rewritten) at two later heights
+	bigCallAt := map[int]bool{(n/2)/4*4 + 8: true, (n - 8) / 4 * 4: true}
+	if len(bigInit) != 38 {
+		must(fmt.Errorf("bigInit layout: runtime must start at offset 32, len %d", len(bigInit)))
+	}
+	var bigTx *tx.Transaction
 	for h := range paramAt {
 		sc.marks = append(sc.marks, uint32(h))
 	}
@@ -151,6 +179,24 @@ func buildChain(seed int64, n int) *scenario {
 			must(err)
 			txs = append(txs, mkTx(0, parent.Header().Number(), tx.NewClause(&builtin.Params.Address).WithData(data), 200000))
 		}
+		if h == 2 {
+			bigTx = mkTx(1, parent.Header().Number(), tx.NewClause(nil).WithData(bigInit), 8_000_000)
+			txs = append(txs, bigTx)
+		}
+		if bigCallAt[h] {
+			txs = append(txs, mkTx(2, parent.Header().Number(), tx.NewClause(&sc.big), 100000))
+		}
+		// at height 8 a sibling that writes the SAME Params slot is imported BEFORE the canonical block: the canonical
+		// block then commits its state (and the Params storage trie) under minor version 1
+		var first *block.Block
+		if h == 8 {
+			data, err := setM.EncodeInput(sc.paramKey[1], big.NewInt(777))
+			must(err)
+			stx := mkTx(0, parent.Header().Number(), tx.NewClause(&builtin.Params.Address).WithData(data), 200000)
+			first, err = net.Mint(parent.Header().ID(), (h+1)%3, false, 0, stx)
+			must(err)
+			sc.txs = append(sc.txs, stx)
+		}
 		var blk *block.Block
 		var err error
 		for who := 0; who < 3; who++ {
@@ -160,9 +206,24 @@ func buildChain(seed int64, n int) *scenario {
 			}
 		}
 		must(err)
+		if first != nil && first.Header().ID() != blk.Header().ID() {
+			sc.order = append(sc.order, first)
+		}
 		sc.order = append(sc.order, blk)
 		sc.canon = append(sc.canon, blk)
 		sc.txs = append(sc.txs, txs...)
+		if h == 2 {
+			rc, err := net.God.Repo.NewChain(blk.Header().ID()).GetTransactionReceipt(bigTx.ID())
+			must(err)
+			if rc.Reverted {
+				must(fmt.Errorf("big contract creation reverted"))
+			}
+			sc.big = thor.CreateContractAddress(bigTx.ID(), 0, 0)
+			for _, i := range []int{0, 1, 7, 31, 64, 100, 150, 199} {
+				sc.bigKeys = append(sc.bigKeys, thor.BytesToBytes32(big.NewInt(int64(i)).Bytes()))
+			}
+			sc.bigKeys = append(sc.bigKeys, thor.BytesToBytes32([]byte{0x01, 0x00}))
+		}
 		if sideAt[h] {
 			// a sibling of blk: another proposer, another transfer => version (h, 1)
 			to := sc.accts[rng.Intn(len(sc.accts))]
@@ -182,7 +243,8 @@ func buildChain(seed int64, n int) *scenario {
 }
 
 // importInto replays the blocks into a fresh stack with the given MuxDB options through the real import sequence.
-func importInto(sc *scenario, o opts) (*stack, error) {
+// newStack builds an empty stack (genesis only) with the given MuxDB options.
+func newStack(sc *scenario, o opts) *stack {
 	s := &stack{o: o, eng: kvrec.New()}
 	s.db = muxdb.NewWithEngine(s.eng, muxdb.VerifOptions{CacheSizeMB: o.CacheMB, CachedNodeTTL: o.TTL,
 		HistPartitionFactor: o.HF, DedupedPtnFactor: o.DF})
@@ -193,31 +255,52 @@ func importInto(sc *scenario, o opts) (*stack, error) {
 	repo, err := chain.NewRepository(s.db, b0)
 	must(err)
 	s.repo = repo
-	cons := consensus.New(repo, s.stater, sc.net.FC)
-	canonID := map[thor.Bytes32]bool{}
-	for _, b := range sc.canon {
-		canonID[b.Header().ID()] = true
+	return s
+}
+
+// importBlock: the real import sequence consensus.Process / Stage.Commit / Repository.AddBlock
+func importBlock(s *stack, sc *scenario, cons *consensus.Consensus, blk *block.Block, asBest bool) error {
+	parent, err := s.repo.GetBlockSummary(blk.Header().ParentID())
+	if err != nil {
+		return fmt.Errorf("block %d: parent summary: %w", blk.Header().Number(), err)
 	}
+	conflicts, err := s.repo.ScanConflicts(blk.Header().Number())
+	must(err)
+	stage, receipts, err := cons.Process(parent, blk, uint64(time.Now().Unix()), conflicts)
+	if err != nil {
+		return fmt.Errorf("block %d: consensus: %w", blk.Header().Number(), err)
+	}
+	if _, err = stage.Commit(); err != nil {
+		return fmt.Errorf("block %d: commit: %w", blk.Header().Number(), err)
+	}
+	if err := s.repo.AddBlock(blk, receipts, conflicts, asBest); err != nil {
+		return fmt.Errorf("block %d: add block: %w", blk.Header().Number(), err)
+	}
+	return nil
+}
+
+func canonSet(sc *scenario) map[thor.Bytes32]bool {
+	m := map[thor.Bytes32]bool{}
+	for _, b := range sc.canon {
+		m[b.Header().ID()] = true
+	}
+	return m
+}
+
+func importInto(sc *scenario, o opts) (*stack, error) {
+	s := newStack(sc, o)
+	cons := consensus.New(s.repo, s.stater, sc.net.FC)
+	canonID := canonSet(sc)
 	for _, blk := range sc.order {
-		parent, err := repo.GetBlockSummary(blk.Header().ParentID())
-		if err != nil {
-			return s, fmt.Errorf("block %d: parent summary: %w", blk.Header().Number(), err)
-		}
-		conflicts, err := repo.ScanConflicts(blk.Header().Number())
-		must(err)
-		stage, receipts, err := cons.Process(parent, blk, uint64(time.Now().Unix()), conflicts)
-		if err != nil {
-			return s, fmt.Errorf("block %d: consensus: %w", blk.Header().Number(), err)
-		}
-		if _, err = stage.Commit(); err != nil {
-			return s, fmt.Errorf("block %d: commit: %w", blk.Header().Number(), err)
-		}
-		if err := repo.AddBlock(blk, receipts, conflicts, canonID[blk.Header().ID()]); err != nil {
-			return s, fmt.Errorf("block %d: add block: %w", blk.Header().Number(), err)
+		if err := importBlock(s, sc, cons, blk, canonID[blk.Header().ID()]); err != nil {
+			return s, err
 		}
 	}
 	return s, nil
 }
+
+// runLiveMode is set by live.go (build tag veriflive: needs the loop-scaling hook of hooks/pruner-loop.patch)
+var runLiveMode func(sc *scenario, o opts, seed int64) runReport
 
 // readBlock performs every observable read at one block; each entry is the value rendered as text or "ERR".
 func readBlock(s *stack, sc *scenario, blk *block.Block) (out map[string]string) {
@@ -252,6 +335,10 @@ func readBlock(s *stack, sc *scenario, blk *block.Block) (out map[string]string)
 		put(fmt.Sprintf("param%d", i), v, err)
 		p, err := builtin.Params.Native(st).Get(k)
 		put(fmt.Sprintf("paramN%d", i), p, err)
+	}
+	for i, k := range sc.bigKeys {
+		v, err := st.GetStorage(sc.big, k)
+		put(fmt.Sprintf("big%d", i), v, err)
 	}
 	code, err := st.GetCode(builtin.Params.Address)
 	put("code", len(code), err)
@@ -314,19 +401,57 @@ type runReport struct {
 	HistDeleted  int        `json:"histKeysDeleted"`
 	Mismatches   []mismatch `json:"mismatches"`
 	PruneErrors  []string   `json:"pruneErrors"`
+	CrashCuts    int        `json:"crashCuts"`
+	ResumeErrors []string   `json:"resumeErrors"` // the same round run again after a crash returned an error
+}
+
+// compareBlock reads one block and compares with the snapshot. class: retained / recent (must equal), pruned /
+// inflight (must fail or equal).
+func compareBlock(rep *runReport, phase, round string, s *stack, sc *scenario, snap map[thor.Bytes32]map[string]string,
+	blk *block.Block, class string, side bool) {
+	id := blk.Header().ID()
+	got := readBlock(s, sc, blk)
+	want := snap[id]
+	num := blk.Header().Number()
+	strict := class == "retained" || class == "recent"
+	keys := make([]string, 0, len(want))
+	for k := range want {
+		keys = append(keys, k)
+	}
+	sort.Strings(keys)
+	if p, ok := got["PANIC"]; ok {
+		rep.Mismatches = append(rep.Mismatches, mismatch{rep.Cfg, round, phase, num, side, class, "PANIC", "", p})
+		return
+	}
+	for _, k := range keys {
+		rep.Reads++
+		g, present := got[k]
+		if !present {
+			g = "ERR" // a read that depends on an earlier failed read was not attempted
+		}
+		w := want[k]
+		switch {
+		case g == w:
+			if strict {
+				rep.RetainedOK++
+			} else {
+				rep.PrunedEqual++
+			}
+		case !strict && (g == "ERR" || got["summary"] == "ERR"):
+			rep.PrunedErr++
+		default:
+			if len(rep.Mismatches) < 50 {
+				rep.Mismatches = append(rep.Mismatches, mismatch{rep.Cfg, round, phase, num, side, class, k, w, g})
+			}
+		}
+	}
 }
 
 func compare(rep *runReport, phase, round string, s *stack, sc *scenario, snap map[thor.Bytes32]map[string]string,
 	base, target uint32, inflight bool) {
-	canon := map[thor.Bytes32]bool{}
-	for _, b := range sc.canon {
-		canon[b.Header().ID()] = true
-	}
+	canon := canonSet(sc)
 	all := append([]*block.Block{sc.canon[0]}, sc.order...)
 	for _, blk := range all {
-		id := blk.Header().ID()
-		got := readBlock(s, sc, blk)
-		want := snap[id]
 		num := blk.Header().Number()
 		class := "retained"
 		if num < target {
@@ -335,44 +460,102 @@ func compare(rep *runReport, phase, round string, s *stack, sc *scenario, snap m
 				class = "inflight"
 			}
 		}
-		keys := make([]string, 0, len(want))
-		for k := range want {
-			keys = append(keys, k)
+		compareBlock(rep, phase, round, s, sc, snap, blk, class, !canon[blk.Header().ID()])
+	}
+}
+
+// crashCuts: the round [base, target) has just been run on s (writes log[l0:l1] of the recording engine, all labelled
+// with the round). For every cut inside the round - after every atomic write and, because the checkpoint and the range
+// delete flush their bulk by size (any prefix of their operations is a possible durable state), after sampled operation
+// prefixes of every write - the store is rebuilt, a fresh stack is opened on it, and
+//   - every block >= target must read as before the prune (blocks in [persisted base, target) are in flight),
+//   - the SAME round is run again from the persisted base (what the pruner does after a restart),
+//   - afterwards every block >= target must read as before, every older block must fail or read as before.
+func crashCuts(rep *runReport, round string, s *stack, sc *scenario, snap map[thor.Bytes32]map[string]string,
+	best *block.Block, base, target uint32, l0 int, rng *rand.Rand) {
+	log := s.eng.Log()
+	l1 := len(log)
+	type cut struct{ k, j int } // log[:k] plus the first j operations of log[k]
+	var cuts []cut
+	for k := l0; k < l1; k++ {
+		cuts = append(cuts, cut{k, 0})
+		n := len(log[k].Ops)
+		for _, j := range []int{1, n / 4, n / 2, n - 1, 1 + rng.Intn(n)} {
+			if j > 0 && j < n {
+				cuts = append(cuts, cut{k, j})
+			}
 		}
-		sort.Strings(keys)
-		if p, ok := got["PANIC"]; ok {
-			rep.Mismatches = append(rep.Mismatches, mismatch{rep.Cfg, round, phase, num, !canon[id], class, "PANIC", "", p})
+	}
+	// the range delete starts with the first write of the round that touches the hist space
+	delStart := l1
+	for k := l0; k < l1; k++ {
+		if strings.Contains(kvrec.Classify(&log[k]), "trie-hist") {
+			delStart = k
+			break
+		}
+	}
+	seen := map[cut]bool{}
+	for _, c := range cuts {
+		if seen[c] {
 			continue
 		}
-		for _, k := range keys {
-			rep.Reads++
-			g, present := got[k]
-			if !present {
-				g = "ERR" // a read that depends on an earlier failed read was not attempted
-			}
-			w := want[k]
-			switch {
-			case g == w:
-				if class == "retained" {
-					rep.RetainedOK++
+		seen[c] = true
+		rep.CrashCuts++
+		e2 := kvrec.Materialize(log, c.k)
+		if c.j > 0 {
+			bl := e2.Bulk()
+			for _, op := range log[c.k].Ops[:c.j] {
+				if op.Del {
+					must(bl.Delete(op.Key))
 				} else {
-					rep.PrunedEqual++
-				}
-			case class != "retained" && (g == "ERR" || got["summary"] == "ERR"):
-				rep.PrunedErr++
-			default:
-				if len(rep.Mismatches) < 50 {
-					rep.Mismatches = append(rep.Mismatches, mismatch{rep.Cfg, round, phase, num, !canon[id], class, k, w, g})
+					must(bl.Put(op.Key, op.Val))
 				}
 			}
+			must(bl.Write())
+		}
+		where := fmt.Sprintf("%s cut %d+%d/%d (%s)", round, c.k-l0, c.j, len(log[c.k].Ops), kvrec.Classify(&log[c.k]))
+		s2 := &stack{o: s.o, eng: e2, b0: s.b0}
+		if err := s2.reopen(); err != nil {
+			rep.Mismatches = append(rep.Mismatches, mismatch{rep.Cfg, where, "after-crash", target, false, "retained", "reopen", "ok", err.Error()})
+			continue
+		}
+		pb, err := pruner.VerifLoadBase(s2.db)
+		if err != nil || (pb != base && pb != target) {
+			rep.PruneErrors = append(rep.PruneErrors, fmt.Sprintf("%s: persisted base %d err %v", where, pb, err))
+			continue
+		}
+		compare(rep, "after-crash", where, s2, sc, snap, pb, target, true)
+		if pb < target {
+			// the pruner starts again: same base, same target
+			if err := pruner.VerifPruneTries(context.Background(), s2.db, s2.repo, s2.repo.NewChain(best.Header().ID()), pb, target); err != nil {
+				if c.k > delStart || (c.k == delStart && c.j > 0) {
+					// design-level observation (NodeStore!Resumable): once the delete has removed the roots of block
+					// target-1 the round cannot be run again, although the persisted base still asks for it
+					rep.ResumeErrors = append(rep.ResumeErrors, where+": "+err.Error())
+				} else {
+					rep.PruneErrors = append(rep.PruneErrors, "crash-resume before any history was deleted, "+where+": "+err.Error())
+				}
+				// the round cannot be completed; the reads must still be right
+				compare(rep, "after-failed-resume", where, s2, sc, snap, pb, target, true)
+				continue
+			}
+			must(pruner.VerifSaveBase(s2.db, target))
+		}
+		compare(rep, "after-resume", where, s2, sc, snap, target, target, false)
+		if c.j == 0 {
+			if err := s2.reopen(); err != nil {
+				rep.Mismatches = append(rep.Mismatches, mismatch{rep.Cfg, where, "after-resume-reopen", target, false, "retained", "reopen", "ok", err.Error()})
+				continue
+			}
+			compare(rep, "after-resume-reopen", where, s2, sc, snap, target, target, false)
 		}
 	}
 }
 
-func runOne(sc *scenario, o opts, seed int64, inflight bool) runReport {
+func runOne(sc *scenario, o opts, seed int64, inflight, crash bool) runReport {
 	rng := rand.New(rand.NewSource(seed))
 	rep := runReport{Cfg: o.String(), Seed: seed, Blocks: len(sc.canon) - 1, SideBlocks: len(sc.order) - (len(sc.canon) - 1),
-		Mismatches: []mismatch{}, PruneErrors: []string{}, Rounds: []string{}}
+		Mismatches: []mismatch{}, PruneErrors: []string{}, Rounds: []string{}, ResumeErrors: []string{}}
 	// the blocks were produced and accepted by a stack with default options; every option set must accept them too
 	s, err := importInto(sc, o)
 	if err != nil {
@@ -393,6 +576,13 @@ func runOne(sc *scenario, o opts, seed int64, inflight bool) runReport {
 		}
 	}
 	best := sc.canon[len(sc.canon)-1]
+	// vacuity guards: the big contract really holds its slots, and the Params trie of block 8 has minor version 1
+	if got := snap[best.Header().ID()]["big6"]; got != thor.BytesToBytes32([]byte{150 + 1}).String() {
+		must(fmt.Errorf("big contract slot 150 reads %s at the best block", got))
+	}
+	if sum, err := s.repo.GetBlockSummary(sc.canon[8].Header().ID()); err != nil || sum.Conflicts != 1 {
+		must(fmt.Errorf("canonical block 8 should have been stored second (conflicts=%v err=%v)", sum, err))
+	}
 	n := uint32(len(sc.canon) - 1)
 	base := uint32(0)
 	histBefore := len(s.eng.Keys([]byte{kvrec.SpaceHist}))
@@ -423,11 +613,15 @@ func runOne(sc *scenario, o opts, seed int64, inflight bool) runReport {
 			}
 			compare(&rep, "in-flight", round, s, sc, snap, base, target, true)
 		}
+		l0 := s.eng.Len()
 		if err := pruner.VerifPruneTries(context.Background(), s.db, s.repo, targetChain, base, target); err != nil {
 			rep.PruneErrors = append(rep.PruneErrors, round+": "+err.Error())
 			break
 		}
 		must(pruner.VerifSaveBase(s.db, target))
+		if crash {
+			crashCuts(&rep, round, s, sc, snap, best, base, target, l0, rng)
+		}
 		compare(&rep, "after-prune", round, s, sc, snap, base, target, false)
 		if err := s.reopen(); err != nil {
 			rep.Mismatches = append(rep.Mismatches, mismatch{rep.Cfg, round, "after-reopen", target, false, "retained", "reopen", "ok", err.Error()})
@@ -450,6 +644,8 @@ func main() {
 	blocks := flag.Int("blocks", 48, "canonical chain length")
 	runs := flag.Int("runs", 3, "number of option sets to run (walks the matrix)")
 	inflight := flag.Bool("inflight", false, "also read between checkpoint and delete (finding probe)")
+	crash := flag.Bool("crash", false, "crash cuts inside every prune round, then the same round again")
+	live := flag.Bool("live", false, "run the real Pruner goroutine (scaled period / history) while blocks are imported")
 	flag.Parse()
 	var mx []opts
 	type ct struct {
@@ -473,7 +669,14 @@ func main() {
 		if i == 0 {
 			o = opts{1, math.MaxUint32, 0, 32} // always include the production-like deduped layout
 		}
-		reps = append(reps, runOne(sc, o, *seed*7919+int64(i), *inflight))
+		if *live {
+			if runLiveMode == nil {
+				must(fmt.Errorf("built without tag veriflive"))
+			}
+			reps = append(reps, runLiveMode(sc, o, *seed*7919+int64(i)))
+			continue
+		}
+		reps = append(reps, runOne(sc, o, *seed*7919+int64(i), *inflight, *crash))
 	}
 	must(os.MkdirAll(*out, 0o755))
 	f, err := os.Create(filepath.Join(*out, "report.json"))
